@@ -392,7 +392,7 @@ func Select(site int, def bool, cs ...Case) int {
 			if len(s.buf) > 0 || len(s.sendq) > 0 {
 				ready = append(ready, i)
 			} else if s.closed {
-				if g.passiveOnly && g.spinSite == site && g.spinMask&(1<<uint(i)) != 0 {
+				if g.passiveOnly && g.inSpinSet(site, i) {
 					stutter |= 1 << uint(i)
 				} else {
 					ready = append(ready, i)
@@ -420,11 +420,11 @@ func Select(site int, def bool, cs ...Case) int {
 			}
 			cs[i].set(v, ok)
 			if closedCase {
-				if g.spinSite != site || !g.passiveOnly {
-					g.spinMask = 0
+				if !g.passiveOnly {
+					g.spinSet = g.spinSet[:0]
 				}
-				g.spinSite, g.passiveOnly = site, true
-				g.spinMask |= 1 << uint(i)
+				g.passiveOnly = true
+				g.spinSet = append(g.spinSet, uint32(site)<<8|uint32(i))
 			} else {
 				g.active()
 			}
